@@ -23,8 +23,8 @@ class RcuBase(CheckDef):
         'thorough': [ModelRun('RcuListMC.tla', 'Rcu_seq.cfg'), ModelRun('RcuListMC.tla', 'Rcu_A.cfg', workers=16, xmx='24g'),
                      ModelRun('RcuListMC.tla', 'Rcu_A2.cfg', workers=16, xmx='24g', note='writer (push_front; erase) + two traversing readers'),
                      ModelRun('RcuListMC.tla', 'Rcu_E.cfg', workers=16), ModelRun('RcuListMC.tla', 'Rcu_live.cfg', workers=16, note='termination under fairness'),
-                     ModelRun('RcuListMC.tla', 'Rcu_B.cfg', workers=16, xmx='28g', timeout=300, simulate='num=400000', note='3 writer operations, 2 nodes, reader + short handle: simulation (graph too large to exhaust)'),
-                     ModelRun('RcuListMC.tla', 'Rcu_C.cfg', workers=16, xmx='28g', timeout=300, simulate='num=400000', note='two writers, 2 nodes, reader: simulation')],
+                     ModelRun('RcuListMC.tla', 'Rcu_B.cfg', workers=16, xmx='28g', timeout=200, simulate='num=400000', note='3 writer operations, 2 nodes, reader + short handle: simulation (graph too large to exhaust)'),
+                     ModelRun('RcuListMC.tla', 'Rcu_C.cfg', workers=16, xmx='28g', timeout=200, simulate='num=400000', note='two writers, 2 nodes, reader: simulation')],
     }
     programs = {
         'quick': [('1;3/0/5', {}, 700, 'random'), ('%s;%s;%s/0;0/5;%s' % (W, W, Er, Er), {}, 800, 'random'),
